@@ -435,6 +435,8 @@ resolve_data_element = Fn(
         C("element_defined", "elem_index < ast_data.item_refs@.len() && elem_index < ast_data.elems@.len() && defined(&old(defs).data_elems, Some(ast_data.item_refs@[elem_index as int]))", ["C03"]),
     ],
     ensures=pass_contract() + [
+        C("resolved_means_unchanged_unless_frozen", "res == %s && !%s.resolved ==> %s.encoding.val() == %s.encoding.val()" % (STABLE, DE, DE, ODE), ["C02", "C09"]),
+        C("frozen_only_in_first_pass_when_statically_known", "%s.resolved && !%s.resolved ==> ctx.is_first_iteration && opts.optimize_statically_known && %s.encoding_statically_known" % (DE, ODE, ODE), ["C02", "C08"]),
         C("width_checked_in_last_pass",
           "res is Ok && ctx.is_last_iteration && !%s.resolved && ast_data.elem_size is Some ==> %s.encoding.size == ast_data.elem_size" % (ODE, DE), ["C04"]),
         C("sized_in_last_pass",
@@ -458,7 +460,7 @@ asm_query_type = Type("src/expr/eval.rs", "struct", "EvalAsmBlockQuery", slot="e
 asm_resolve_once_stub = Fn(FA, "resolve_once", slot="resolver", mode="stub", ret="res", key="eval_asm::resolve_once",
     sig_rewrites=[Rewrite("fn resolve_once(", "fn asm_resolve_once(", rule="R6", why="renamed: two functions called resolve_once live in one flattened module")],
     ensures=[
-        C("strict_pass_recorded", "res is Ok && is_last_iteration ==> asm_strict_value(final(query).report) == res->Ok_0.value && asm_strict_stable(final(query).report) == !res->Ok_0.unstable", stub_only=True),
+        C("strict_pass_recorded", "res is Ok && is_last_iteration ==> asm_strict_value(final(query).report) == res->Ok_0.value && asm_strict_stable(final(query).report) == !res->Ok_0.unstable && asm_strict_start(final(query).report) == position_at_start", stub_only=True),
         C("err_is_loud", "res is Err ==> final(query).report.msgs() > old(query).report.msgs()"),
         C("ok_is_clean", "res is Ok ==> final(query).report.msgs() == old(query).report.msgs()"),
     ])
@@ -467,6 +469,7 @@ asm_resolve_iteratively = Fn(FA, "resolve_iteratively", slot="resolver", ret="re
     rewrites=[Rewrite("resolve_once(", "asm_resolve_once(", count=2, rule="R6", why="renamed callee (see above)")],
     ensures=[
         C("value_of_a_strict_stable_pass", "res is Ok && !(res->Ok_0 is Unknown) ==> res->Ok_0 == asm_strict_value(final(query).report) && asm_strict_stable(final(query).report)", ["C09", "C02"]),
+        C("laid_out_from_the_given_position", "res is Ok && !(res->Ok_0 is Unknown) ==> asm_strict_start(final(query).report) == position_at_start", ["C17"]),
         C("unknown_only_while_guessing", "res is Ok && res->Ok_0 is Unknown && !asm_strict_stable(final(query).report) ==> !ctx.is_last_iteration", ["C02"]),
         C("err_is_loud", "res is Err ==> final(query).report.msgs() > old(query).report.msgs()", ["C03"]),
     ],
@@ -485,13 +488,14 @@ check_leftover_ifs = Fn(
         C("err_is_loud", "res is Err ==> final(report).msgs() > old(report).msgs()", ["C03", "C16"]),
         C("ok_is_clean", "res is Ok ==> final(report).msgs() == old(report).msgs() && final(report).errors() == old(report).errors()", ["C03", "C16"]),
         C("ok_means_no_if_left", "res is Ok ==> forall|j: int| 0 <= j < ast.nodes@.len() ==> !(#[trigger] ast.nodes@[j] is DirectiveIf)", ["C03", "C16"]),
-        C("err_means_an_if_is_left", "res is Err ==> exists|j: int| 0 <= j < ast.nodes@.len() && #[trigger] ast.nodes@[j] is DirectiveIf", ["C03", "C16"]),
+        C("ok_means_no_include_left_behind", "res is Ok ==> forall|j: int| 0 <= j < ast.nodes@.len() ==> !(#[trigger] ast.nodes@[j] is DirectiveInclude)", ["C16", "C14", "C03"]),
+        C("err_means_an_if_or_an_include_is_left", "res is Err ==> exists|j: int| 0 <= j < ast.nodes@.len() && (#[trigger] ast.nodes@[j] is DirectiveIf || ast.nodes@[j] is DirectiveInclude)", ["C03", "C16"]),
         C("parents_balanced", "final(report).parents() == old(report).parents()", ["C03", "C16"]),
     ],
     for_to_while=[1],
     loops={1: Loop(invariant=[
         C("clean_so_far", "report.msgs() == old(report).msgs() && report.errors() == old(report).errors() && report.parents() == old(report).parents()"),
-        C("no_if_so_far", "verif_vec_1@ == ast.nodes@ && verif_next_1 <= ast.nodes@.len() && forall|j: int| 0 <= j < verif_next_1 ==> !(#[trigger] ast.nodes@[j] is DirectiveIf)"),
+        C("no_if_so_far", "verif_vec_1@ == ast.nodes@ && verif_next_1 <= ast.nodes@.len() && forall|j: int| 0 <= j < verif_next_1 ==> !(#[trigger] ast.nodes@[j] is DirectiveIf) && !(ast.nodes@[j] is DirectiveInclude)"),
     ], decreases="ast.nodes@.len() - verif_next_1")},
 )
 
